@@ -201,4 +201,79 @@ func suiteBridgeLife(e *vh.Env) {
 		e.Eval(fmt.Sprintf("dial-failure-%d", k), true)
 		e.Count("server-unreachable-at-dial")
 	}
+	bridgeRefusedHandshake(e)
+}
+
+// bridgeRefusedHandshake: a client asks for a bridged connection with a websocket handshake the backend refuses
+// (foreign Origin, unsupported version, missing key) and goes away.  Whatever the handler opened towards the TCP server
+// for that client must be closed again: no connection outlives both of its endpoints.
+func bridgeRefusedHandshake(e *vh.Env) {
+	ln, err := net.Listen("tcp", "127.0.0.1:0")
+	if err != nil {
+		return
+	}
+	defer ln.Close()
+	var mu sync.Mutex
+	accepted, ended := 0, 0
+	go func() {
+		for {
+			c, err := ln.Accept()
+			if err != nil {
+				return
+			}
+			mu.Lock()
+			accepted++
+			mu.Unlock()
+			go func() {
+				io.Copy(io.Discard, c)
+				c.Close()
+				mu.Lock()
+				ended++
+				mu.Unlock()
+			}()
+		}
+	}()
+	srv := httptest.NewServer(connection.Handler(ln.Addr().(*net.TCPAddr).Port, http.NotFoundHandler()))
+	defer srv.Close()
+	host := strings.TrimPrefix(srv.URL, "http://")
+	kinds := []struct{ name, extra string }{
+		{"foreign-origin", "Sec-WebSocket-Version: 13\r\nSec-WebSocket-Key: dGhlIHNhbXBsZSBub25jZQ==\r\nOrigin: http://elsewhere.example\r\n"},
+		{"unsupported-version", "Sec-WebSocket-Version: 8\r\nSec-WebSocket-Key: dGhlIHNhbXBsZSBub25jZQ==\r\n"},
+		{"missing-key", "Sec-WebSocket-Version: 13\r\n"},
+	}
+	n := e.N(6, 60)
+	for k := 0; k < n; k++ {
+		if !e.Want(2000 + k) {
+			continue
+		}
+		kd := kinds[k%len(kinds)]
+		c, err := net.Dial("tcp", host)
+		if err != nil {
+			continue
+		}
+		fmt.Fprintf(c, "GET %s HTTP/1.1\r\nHost: %s\r\nConnection: Upgrade\r\nUpgrade: websocket\r\n%s\r\n", connection.StreamingPath, host, kd.extra)
+		c.SetReadDeadline(time.Now().Add(2 * time.Second))
+		buf := make([]byte, 4096)
+		m, _ := c.Read(buf)
+		status := strings.SplitN(string(buf[:m]), "\r\n", 2)[0]
+		c.Close()
+		ok := false
+		var a, d int
+		for i := 0; i < 70; i++ {
+			mu.Lock()
+			a, d = accepted, ended
+			mu.Unlock()
+			if a == d {
+				ok = true
+				break
+			}
+			time.Sleep(30 * time.Millisecond)
+		}
+		if !ok {
+			e.Fail("C16:connections-leaked-after-refused-handshake", fmt.Sprintf("handshake refused (%s, reply %q) and the client gone, yet %d of the %d connections the bridge opened to the TCP server are still open after 2 s", kd.name, status, a-d, a), 2000+k, nil, a-d, 0)
+			break
+		}
+		e.Eval(fmt.Sprintf("refused-%d", k), true)
+		e.Count("refused-handshake/" + kd.name)
+	}
 }
